@@ -257,6 +257,9 @@ def evalstr(ctx: Ctx, func, e: ast.AST, at, seen=None, defstmt=None) -> Val:
             return evalstr(ctx, func, s, at, seen, defstmt)
         if call_name(e) == "str" and len(e.args) == 1:
             return evalstr(ctx, func, e.args[0], at, seen, defstmt)
+        inl = _inline_call(ctx, func, e, at, seen, defstmt)
+        if inl is not None:
+            return inl
         return Val.top(e, f"result of call {short(e, 60)!r} is not a case map of the segment text", defstmt)
     if isinstance(e, ast.BinOp):
         return Val.top(e, f"string arithmetic {short(e, 60)!r} (concatenation/formatting) is not a case map", defstmt)
@@ -267,6 +270,54 @@ def evalstr(ctx: Ctx, func, e: ast.AST, at, seen=None, defstmt=None) -> Val:
     if isinstance(e, ast.Constant):
         return Val.top(e, f"literal {e.value!r} is not derived from the segment text", defstmt)
     return Val.top(e, f"expression {short(e, 60)!r} is outside the case-map domain", defstmt)
+
+
+def _inline_call(ctx: Ctx, func, call: ast.Call, at, seen, defstmt, _depth=[0]) -> Optional[Val]:
+    """A helper extracted from the policy code: evaluate its return expressions with
+    the arguments substituted (own methods and module-level functions only)."""
+    if _depth[0] >= 3:
+        return None
+    module = func._module
+    callee = None
+    skip_self = 0
+    if isinstance(call.func, ast.Name):
+        r = ctx.chk.repo.resolve_name(module, call.func.id)
+        if r and isinstance(r[1], FuncNode):
+            callee = r[1]
+    elif isinstance(call.func, ast.Attribute) and isinstance(call.func.value, ast.Name) and call.func.value.id in ("self", "cls"):
+        c = enclosing_class(func)
+        if c is not None:
+            r = ctx.chk.repo.lookup_method(module, c, call.func.attr)
+            if r:
+                callee = r[1]
+                deco = {norm(d) for d in callee.decorator_list}
+                skip_self = 0 if "staticmethod" in deco else 1
+    if callee is None or call.keywords or any(isinstance(a, ast.Starred) for a in call.args):
+        return None
+    params = [a.arg for a in callee.args.posonlyargs + callee.args.args][skip_self:]
+    if len(call.args) > len(params):
+        return None
+    rets = [n for n in walk_local(callee) if isinstance(n, ast.Return) and n.value is not None]
+    if not rets:
+        return None
+    argvals = {p: evalstr(ctx, func, a, at, seen, defstmt) for p, a in zip(params, call.args)}
+    out = Val()
+    _depth[0] += 1
+    try:
+        for r in rets:
+            v = evalstr(ctx, callee, r.value, r, None, r)
+            out.tops += v.tops
+            out.external += v.external
+            for b in v.bases:
+                if b in argvals:
+                    out.merge(argvals[b])
+                elif b in params or b in ("self", "cls"):
+                    out.tops.append((r, f"helper {callee.name}() returns its parameter '{b}', for which no argument is passed", r))
+                else:
+                    out.bases.add(b)
+    finally:
+        _depth[0] -= 1
+    return out
 
 
 def _for_value(ctx: Ctx, func, d) -> Val:
@@ -431,12 +482,12 @@ def run(chk) -> None:
             chk.count("R15a.builder_calls")
             a = arg_of(c, 0, "segment")
             r = arg_of(c, 1, "fixed_raw")
-            if not chk.require(a is not None and r is not None and isinstance(a, ast.Name), "R15a", c, "fix builder called with an anchor that is not a plain local (cannot relate it to the edited text)", detail=f"builder call shape: {short(c, 120)}"):
+            if not chk.require(a is not None and r is not None and isinstance(a, (ast.Name, ast.Attribute)), "R15a", c, "fix builder called with an anchor that is not a plain name/attribute (cannot relate it to the edited text)", detail=f"builder call shape: {short(c, 120)}"):
                 continue
             st = cfg_of(f).stmt_of(c)
             v = evalstr(ctx, f, r, st)
             # pass-through override: def _get_fix(self, segment, fixed_raw): return super()._get_fix(segment, fixed_raw)
-            if f.name == BUILDER and not v.tops and v.bases <= set(params) and len(v.bases) == 1 and a.id in params:
+            if f.name == BUILDER and not v.tops and v.bases <= set(params) and len(v.bases) == 1 and isinstance(a, ast.Name) and a.id in params:
                 ai, ri = params.index(a.id), params.index(next(iter(v.bases)))
                 same_order = (ai, ri) == (1, 2)
                 chk.require(same_order, "R15a", c, "override of the fix builder passes its parameters on in a different order", detail=f"override passes (segment, fixed_raw) through: {short(c, 100)}")
@@ -453,13 +504,13 @@ def run(chk) -> None:
                     chk.assumptions.append(msg)
                 chk.ok("R15a", construct_of(c), f"external: {short(c, 100)}")
                 continue
-            want = f"{a.id}.raw"
+            want = f"{norm(a)}.raw"
             chk.require(
                 v.bases <= {want} and bool(v.bases or v.tops), "R15a", c,
-                f"the anchor of the fix is '{a.id}' but the new text is a case map of {sorted(v.bases)}: the edited segment and the recased text belong to different segments",
+                f"the anchor of the fix is '{norm(a)}' but the new text is a case map of {sorted(v.bases)}: the edited segment and the recased text belong to different segments",
                 detail=f"anchor/text agreement: {short(c, 120)}",
             )
-            chk.sample({"rule": "R15a", "call": f"{m.relpath}:{c.lineno}", "anchor": a.id, "bases": sorted(v.bases), "definitions_evaluated": ctx.defs_evaluated})
+            chk.sample({"rule": "R15a", "call": f"{m.relpath}:{c.lineno}", "anchor": norm(a), "bases": sorted(v.bases), "definitions_evaluated": ctx.defs_evaluated})
     # every `fixes=` handed to a LintResult in scope is a list of builder calls
     for m, q, f in funcs:
         for c in walk_local(f):
@@ -566,7 +617,7 @@ VARIANTS = [
         "fix-anchored-on-other-segment", CP01,
         "                fixes=[self._get_fix(segment, fixed_raw)],\n                memory=memory,",
         "                fixes=[self._get_fix(context.segment, fixed_raw)],\n                memory=memory,",
-        "R15a", "builder call shape",
+        "R15a", "anchor/text agreement: self._get_fix(context.segment",
     ),
     Variant(
         "fix-text-from-other-segment", CP01,
